@@ -121,9 +121,72 @@ fn dpath(tcx: TyCtxt<'_>, did: DefId) -> String {
     tcx.def_path_str(did)
 }
 
+struct Owned {
+    adts: Vec<String>,
+    param: bool,
+    dynamic: bool,
+    alias: bool,
+}
+
+fn owned_walk<'tcx>(tcx: TyCtxt<'tcx>, ty: Ty<'tcx>, out: &mut Owned, depth: usize) {
+    if depth > 12 {
+        return;
+    }
+    match ty.kind() {
+        ty::Adt(def, args) => {
+            let p = dpath(tcx, def.did());
+            let non_owning = p.ends_with("ptr::NonNull")
+                || p.ends_with("marker::PhantomData")
+                || p.ends_with("mem::ManuallyDrop")
+                || p.ends_with("mem::MaybeUninit")
+                || p.ends_with("rc::Weak")
+                || p.ends_with("sync::Weak")
+                || p.ends_with("MutexGuard")
+                || p.ends_with("RwLockReadGuard")
+                || p.ends_with("RwLockWriteGuard")
+                || p.ends_with("cell::Ref")
+                || p.ends_with("cell::RefMut")
+                || p.ends_with("slice::Iter")
+                || p.ends_with("slice::IterMut")
+                || p.ends_with("ptr::Unique")
+                || p.ends_with("pin::Pin") && false;
+            if !out.adts.contains(&p) {
+                out.adts.push(p);
+            }
+            if !non_owning {
+                for a in args.iter() {
+                    if let GenericArgKind::Type(t) = a.kind() {
+                        owned_walk(tcx, t, out, depth + 1);
+                    }
+                }
+            }
+        }
+        ty::Tuple(ts) => {
+            for t in ts.iter() {
+                owned_walk(tcx, t, out, depth + 1);
+            }
+        }
+        ty::Array(t, _) | ty::Slice(t) => owned_walk(tcx, *t, out, depth + 1),
+        ty::Closure(_, args) => {
+            for t in args.as_closure().upvar_tys().iter() {
+                owned_walk(tcx, t, out, depth + 1);
+            }
+        }
+        ty::Coroutine(..) | ty::CoroutineClosure(..) => {
+            out.alias = true;
+        }
+        ty::Param(_) => out.param = true,
+        ty::Dynamic(..) => out.dynamic = true,
+        ty::Alias(..) => out.alias = true,
+        _ => {}
+    }
+}
+
 impl<'tcx> Cx<'tcx> {
     fn ty_json(&self, ty: Ty<'tcx>, env: TypingEnv<'tcx>) -> J {
         let tcx = self.tcx;
+        let mut owned = Owned { adts: Vec::new(), param: false, dynamic: false, alias: false };
+        owned_walk(tcx, ty, &mut owned, 0);
         let mut adts: Vec<String> = Vec::new();
         let mut closures: Vec<String> = Vec::new();
         let mut fndefs: Vec<String> = Vec::new();
@@ -200,6 +263,10 @@ impl<'tcx> Cx<'tcx> {
             ("alias", J::b(has_alias)),
             ("fnptr", J::b(has_fnptr)),
             ("needs_drop", J::b(needs_drop)),
+            ("owned", J::arr(owned.adts.iter().map(|s| J::s(s)).collect())),
+            ("oparam", J::b(owned.param)),
+            ("odyn", J::b(owned.dynamic)),
+            ("oalias", J::b(owned.alias)),
         ])
     }
 
